@@ -11,3 +11,32 @@ func init() {
 	register("C17", ruleNegMod)
 	register("C10", ruleNegMod)
 }
+
+func init() {
+	register("C01", ruleAtoiPkgs(1, "qr"))
+	register("C10", ruleAtoiPkgs(1))
+	register("C14", ruleAtoiPkgs(0, "ean", "code128", "code39", "utils", "barcode"))
+}
+
+func init() {
+	register("C11", ruleColor)
+}
+
+func init() {
+	register("C15", ruleAlias)
+}
+
+func init() {
+	register("C06", ruleEANLen, ruleEANCheckValue, ruleMod10)
+	register("C08", ruleMod10)
+	register("C14", ruleEANLen, ruleEANCheckValue)
+}
+
+func init() {
+	register("C07", ruleOptGate)
+}
+
+func init() {
+	register("C04", ruleRowIndicators)
+	register("C12", ruleRowIndicators)
+}
